@@ -209,6 +209,8 @@ struct State {
     conns: usize,
     seq: usize,
     kills: Vec<Arc<tokio::sync::Notify>>,
+    /// a header every request must carry (the stream configured it on every transport)
+    expect_header: Option<(String, String)>,
 }
 
 struct Shared {
@@ -265,6 +267,11 @@ impl Collector {
     }
 
     /// Drop every connection accepted so far (exchanges still hanging from an earlier case end with an error).
+    /// from now on every request must carry this header (`None`: no requirement)
+    pub fn expect_header(&self, h: Option<(&str, &str)>) {
+        self.shared.state.lock().unwrap().expect_header = h.map(|(k, v)| (k.to_string(), v.to_string()));
+    }
+
     pub fn kill_connections(&self) {
         let kills = std::mem::take(&mut self.shared.state.lock().unwrap().kills);
         for k in kills {
@@ -481,6 +488,11 @@ async fn handle(req: Request<Incoming>, conn: usize, h2: bool, shared: Arc<Share
                 bad("content-encoding");
                 payload = raw;
             }
+        }
+    }
+    if let Some((k, v)) = shared.state.lock().unwrap().expect_header.clone() {
+        if hdr(&k).as_deref() != Some(v.as_str()) {
+            bad("configured-header-missing");
         }
     }
     rec.json = ct == "application/json";
